@@ -39,7 +39,7 @@ func selectJobs(w *World, o *checkOpts) []job {
 	for _, cs := range w.csets {
 		for _, n := range cs.Order {
 			c := cs.Funcs[n]
-			if c.Assumed || c.Trusted != "" || strings.HasPrefix(n, "field ") {
+			if c.Assumed || c.Trusted != "" || c.Inline || strings.HasPrefix(n, "field ") {
 				continue
 			}
 			if len(want) > 0 {
@@ -118,29 +118,112 @@ func runCheck(w *World, o *checkOpts, t0 time.Time) int {
 	return report(w, o, results, time.Since(t0).Seconds())
 }
 
+
+type KnownFinding struct {
+	Properties []string `json:"properties"`
+	Obligation string   `json:"obligation"`
+	Status     string   `json:"status"` // open | fixed
+	Commit     string   `json:"commit,omitempty"`
+	What       string   `json:"what"`
+	Witness    string   `json:"witness,omitempty"`
+}
+
+type KnownFindings struct {
+	Findings []KnownFinding `json:"findings"`
+}
+
+func loadKnownFindings() *KnownFindings {
+	kf := &KnownFindings{}
+	data, err := os.ReadFile(filepath.Join(verifRoot(), "known_findings.json"))
+	if err == nil {
+		if err := json.Unmarshal(data, kf); err != nil {
+			fmt.Fprintln(os.Stderr, "known_findings.json:", err)
+		}
+	}
+	return kf
+}
+
+func (kf *KnownFindings) open(property, obligation string) *KnownFinding {
+	for i := range kf.Findings {
+		f := &kf.Findings[i]
+		if f.Status != "open" || f.Obligation != obligation {
+			continue
+		}
+		for _, p := range f.Properties {
+			if p == property {
+				return f
+			}
+		}
+	}
+	return nil
+}
+
 type oblReport struct {
 	ID     string  `json:"id"`
 	Kind   string  `json:"kind"`
+	Clause string  `json:"clause,omitempty"`
 	Status string  `json:"status"`
 	Solver string  `json:"solver,omitempty"`
 	Secs   float64 `json:"secs"`
-	Desc   string  `json:"desc,omitempty"`
 	Pos    string  `json:"pos,omitempty"`
 }
 
+type funcReport struct {
+	Name        string   `json:"name"`
+	File        string   `json:"contract_file"`
+	Requires    int      `json:"requires"`
+	Ensures     int      `json:"ensures"`
+	Invariants  int      `json:"loop_invariants"`
+	Obligations int      `json:"obligations"`
+	Abstracted  []string `json:"abstracted_calls,omitempty"`
+}
+
 func report(w *World, o *checkOpts, results []*JobResult, wall float64) int {
-	total, discharged, failed, undecided := 0, 0, 0, 0
+	kf := loadKnownFindings()
+	total, discharged, undecided := 0, 0, 0
 	bySolver := map[string]int{}
 	secsBySolver := map[string]float64{}
-	var fails []*Obligation
+	var fails, known, bounded []*Obligation
 	var failJobs []*JobResult
+	var all []oblReport
+	var funcs []funcReport
+	trusted := map[string]bool{}
+	inlined := map[string]bool{}
+	usedContracts := map[string]bool{}
+	boundedLoops := map[string]int{}
+	abstracted := map[string][]string{}
 	exit := 0
+	vacuityOK := 0
 	for _, jr := range results {
 		if jr.Err != "" {
-			fmt.Printf("UNDECIDED property=%s reason=%s function=%s\n", o.property, jr.Err, jr.Name)
+			fmt.Printf("UNDECIDED property=%s reason=%s function=%s\n", o.property, strings.ReplaceAll(jr.Err, "\n", " "), jr.Name)
 			undecided++
 			exit = 2
 			continue
+		}
+		for _, t := range jr.Trusted {
+			trusted[t] = true
+		}
+		for _, t := range jr.Inlined {
+			inlined[t] = true
+		}
+		for _, t := range jr.Used {
+			usedContracts[t] = true
+		}
+		for k, v := range jr.Bounded {
+			boundedLoops[k] = v
+		}
+		for k, v := range jr.Abstracted {
+			abstracted[k] = v
+		}
+		fr := funcReport{Name: jr.Name}
+		if jr.Contract != nil {
+			fr.File = strings.TrimPrefix(jr.Contract.File, w.repo+"/")
+			fr.Requires, fr.Ensures = len(jr.Contract.Requires), len(jr.Contract.Ensures)
+			for _, l := range jr.Contract.Loops {
+				fr.Invariants += len(l.Inv)
+			}
+			fr.Abstracted = jr.Abstracted[jr.Name]
 		}
 		for _, ob := range jr.Obls {
 			if ob.Kind == "vacuity" {
@@ -148,17 +231,35 @@ func report(w *World, o *checkOpts, results []*JobResult, wall float64) int {
 					fmt.Printf("UNDECIDED property=%s reason=vacuous-precondition function=%s (%s)\n", o.property, jr.Name, ob.Result.Status)
 					undecided++
 					exit = 2
+				} else {
+					vacuityOK++
 				}
 				continue
 			}
-			total++
-			switch ob.Result.Status {
-			case "unsat":
+			fr.Obligations++
+			pos := ""
+			if ob.Pos.IsValid() {
+				pos = fmt.Sprintf("%s:%d", strings.TrimPrefix(ob.Pos.Filename, w.repo+"/"), ob.Pos.Line)
+			}
+			all = append(all, oblReport{ID: ob.ID, Kind: ob.Kind, Clause: ob.Desc, Status: ob.Result.Status, Solver: ob.Result.Solver, Secs: ob.Result.Secs, Pos: pos})
+			if ob.Bounded {
+				bounded = append(bounded, ob)
+				if ob.Result.Status != "unsat" {
+					fails = append(fails, ob)
+					failJobs = append(failJobs, jr)
+				}
+				continue
+			}
+			if ob.Result.Status == "unsat" {
+				total++
 				discharged++
 				bySolver[ob.Result.Solver]++
 				secsBySolver[ob.Result.Solver] += ob.Result.Secs
-			default:
-				failed++
+			} else if f := kf.open(o.property, ob.ID); f != nil {
+				known = append(known, ob)
+				fmt.Printf("KNOWN-FINDING: property=%s %s: %s\n", o.property, ob.ID, f.What)
+			} else {
+				total++
 				fails = append(fails, ob)
 				failJobs = append(failJobs, jr)
 			}
@@ -166,19 +267,197 @@ func report(w *World, o *checkOpts, results []*JobResult, wall float64) int {
 				fmt.Printf("  %-8s %-10s %6.2fs %s  %s\n", ob.Result.Status, ob.Result.Solver, ob.Result.Secs, ob.ID, ob.Desc)
 			}
 		}
+		funcs = append(funcs, fr)
 	}
+	// violations: replay every failed obligation on the real code
+	violations := 0
 	for i, ob := range fails {
+		jr := failJobs[i]
 		fmt.Printf("FAILED %s [%s by %s %.2fs] %s (%s:%d)\n", ob.ID, ob.Result.Status, ob.Result.Solver, ob.Result.Secs, ob.Desc, filepath.Base(ob.Pos.Filename), ob.Pos.Line)
-		if ob.Result.Status == "sat" && o.verbose {
-			printModel(failJobs[i], ob)
+		if o.verbose {
+			fmt.Printf("      attempts: %v\n", ob.Result.Attempt)
+			if ob.Result.Status == "sat" {
+				printModel(jr, ob)
+			}
 		}
+		path, confirmed := writeReplay(w, o, jr, ob)
+		violations++
+		suffix := ""
+		if !confirmed {
+			suffix = " no-failing-input-found"
+		}
+		fmt.Printf("VIOLATION property=%s replay=%s%s\n", o.property, path, suffix)
 	}
-	fmt.Printf("property=%s functions=%d obligations=%d discharged=%d failed=%d undecided=%d wall=%.1fs solvers=%v\n",
-		o.property, len(results), total, discharged, failed, undecided, wall, bySolver)
-	if failed > 0 && exit == 0 {
+	fmt.Printf("property=%s tier=%s functions=%d obligations=%d discharged=%d failed=%d known=%d bounded=%d undecided=%d wall=%.1fs solvers=%v\n",
+		o.property, o.tier, len(results), total, discharged, len(fails), len(known), len(bounded), undecided, wall, bySolver)
+	if len(fails) > 0 && exit == 0 {
 		exit = 1
 	}
+	if o.property != "" && o.funcs == "" {
+		writeEvidence(w, o, evidenceInput{all: all, funcs: funcs, total: total, discharged: discharged, violations: violations, known: known, bounded: bounded,
+			bySolver: bySolver, secsBySolver: secsBySolver, trusted: trusted, inlined: inlined, used: usedContracts, boundedLoops: boundedLoops,
+			abstracted: abstracted, wall: wall, undecided: undecided, vacuityOK: vacuityOK})
+	}
 	return exit
+}
+
+type evidenceInput struct {
+	all          []oblReport
+	funcs        []funcReport
+	total        int
+	discharged   int
+	violations   int
+	known        []*Obligation
+	bounded      []*Obligation
+	bySolver     map[string]int
+	secsBySolver map[string]float64
+	trusted      map[string]bool
+	inlined      map[string]bool
+	used         map[string]bool
+	boundedLoops map[string]int
+	abstracted   map[string][]string
+	wall         float64
+	undecided    int
+	vacuityOK    int
+}
+
+func keysOf(m map[string]bool) []string {
+	var ks []string
+	for k := range m {
+		ks = append(ks, k)
+	}
+	sort.Strings(ks)
+	return ks
+}
+
+func writeEvidence(w *World, o *checkOpts, in evidenceInput) {
+	seed := int64(0)
+	fmt.Sscan(os.Getenv("VERIF_SEED"), &seed)
+	sorted := append([]oblReport{}, in.all...)
+	sort.Slice(sorted, func(i, j int) bool { return sorted[i].Secs > sorted[j].Secs })
+	slowest := sorted
+	if len(slowest) > 5 {
+		slowest = slowest[:5]
+	}
+	// samples: up to three non-trivial discharged obligations written out
+	var samples []oblReport
+	for _, k := range []string{"ensures", "invariant", "assert", "lemma", "requires", "safety"} {
+		for _, ob := range in.all {
+			if ob.Kind == k && ob.Status == "unsat" && ob.Solver != "simplifier" && len(samples) < 3 {
+				samples = append(samples, ob)
+				break
+			}
+		}
+	}
+	if len(samples) == 0 && len(in.all) > 0 {
+		samples = append(samples, in.all[0])
+	}
+	trustedBase := []string{
+		"govc itself: SSA-to-SMT translation, intrinsic models, memory model (DESIGN A1)",
+		"go/ssa (x/tools v0.29.0) lowers the source as the compiler does (A2)",
+		"amd64 / little-endian / gc struct layout; allocations fresh, disjoint, zeroed, never fail (A3)",
+		"z3 4.8.12, z3 5.1.0 (z3-new), cvc5 1.0.x answer unsat only for unsatisfiable queries (A4)",
+	}
+	trustedBase = append(trustedBase, keysOf(in.trusted)...)
+	var notUnder []string
+	for _, cs := range w.csets {
+		notUnder = append(notUnder, cs.NotUnder[o.property]...)
+	}
+	var knownIDs, boundedIDs []string
+	for _, ob := range in.known {
+		knownIDs = append(knownIDs, ob.ID)
+	}
+	for _, ob := range in.bounded {
+		boundedIDs = append(boundedIDs, ob.ID)
+	}
+	byKind := map[string]int{}
+	for _, ob := range in.all {
+		byKind[ob.Kind]++
+	}
+	cov := map[string]interface{}{
+		"obligations":              in.total,
+		"discharged":               in.discharged,
+		"checker_cmd":              fmt.Sprintf("./bin/govc check --property %s --tier %s", o.property, o.tier),
+		"trusted_base":             trustedBase,
+		"functions_under_contract": in.funcs,
+		"obligations_by_kind":      byKind,
+		"by_solver":                in.bySolver,
+		"solver_seconds":           in.secsBySolver,
+		"slowest":                  slowest,
+		"samples":                  samples,
+		"known_findings":           knownIDs,
+		"bounded_obligations":      boundedIDs,
+		"bounded_loops":            in.boundedLoops,
+		"inlined_functions":        keysOf(in.inlined),
+		"callee_contracts_used":    keysOf(in.used),
+		"abstracted_calls":         in.abstracted,
+		"not_under_contract":       notUnder,
+		"vacuity_guards_sat":       in.vacuityOK,
+		"undecided":                in.undecided,
+		"integer_semantics":        "fixed-width two's-complement bit-vectors of the real width; no mathematical integers",
+	}
+	ev := map[string]interface{}{
+		"property_id": o.property,
+		"tier":        o.tier,
+		"seed":        seed,
+		"level":       "proof",
+		"coverage":    cov,
+		"assumptions": trustedBase,
+		"wall_s":      in.wall,
+		"violations":  in.violations,
+	}
+	if err := writeJSON(filepath.Join(verifRoot(), "evidence", o.property+".json"), ev); err != nil {
+		fmt.Fprintln(os.Stderr, "evidence:", err)
+	}
+}
+
+// writeReplay replays a failed obligation and stores the replay file.
+func writeReplay(w *World, o *checkOpts, jr *JobResult, ob *Obligation) (string, bool) {
+	rf := ReplayFile{Property: o.property, Obligation: ob.ID, Kind: ob.Kind, Clause: ob.Desc, Function: jr.Name,
+		Solver: ob.Result.Solver, Status: ob.Result.Status}
+	if ob.Pos.IsValid() {
+		rf.Position = fmt.Sprintf("%s:%d", ob.Pos.Filename, ob.Pos.Line)
+	}
+	raw := ob.Result.Raw
+	if len(raw) > 4000 {
+		raw = raw[:4000]
+	}
+	rf.SolverOut = strings.Join(ob.Result.Attempt, " ") + "\n" + raw
+	confirmed := false
+	if ob.Result.Status == "sat" && jr.Kind == "func" {
+		rf.Model = namedModel(jr, ob)
+		fn := w.funcs[jr.Name]
+		src, why := buildReplay(w, fn, jr.Contract, ob, rf.Model)
+		if src == "" {
+			rf.Note = why
+		} else {
+			dir := ""
+			for _, cs := range w.csets {
+				if fn.Pkg != nil && cs.Pkg == fn.Pkg.Pkg.Name() {
+					dir = cs.Dir
+				}
+			}
+			rf.PkgDir, rf.TestSource = dir, src
+			out, _ := runReplay(dir, src)
+			if len(out) > 6000 {
+				out = out[:6000]
+			}
+			rf.Output = out
+			confirmed, rf.Note = replayVerdict(ob.Kind, out)
+			if !confirmed && (ob.Cut || ob.Kind != "safety") && jr.Contract != nil && jr.Contract.ReplayTpl == "" {
+				rf.Note += "; the path crosses a loop cut or a callee contract, or the clause has no executable oracle"
+			}
+		}
+	} else if ob.Result.Status != "sat" {
+		rf.Note = "solver gave no model (" + ob.Result.Status + ")"
+	}
+	rf.Confirmed = confirmed
+	dir := filepath.Join(verifRoot(), "replays", o.property)
+	path := filepath.Join(dir, sanitizeFile(ob.ID)+".json")
+	if err := writeJSON(path, rf); err != nil {
+		fmt.Fprintln(os.Stderr, "replay file:", err)
+	}
+	return path, confirmed
 }
 
 // namedModel maps input names to model values.
@@ -193,7 +472,6 @@ func namedModel(jr *JobResult, ob *Obligation) map[string]string {
 }
 
 func printModel(jr *JobResult, ob *Obligation) {
-	m := namedModel(jr, ob)
 	var bytesOf = map[string][]byte{}
 	for i, n := range jr.Inputs {
 		v, ok := ob.Result.Model[fmt.Sprint(i)]
@@ -211,8 +489,6 @@ func printModel(jr *JobResult, ob *Obligation) {
 	for n, bs := range bytesOf {
 		fmt.Printf("      %s[0:%d] = %q\n", n, len(bs), bs)
 	}
-	_ = m
-	_ = sort.Strings
 }
 
 func writeJSON(path string, v interface{}) error {
@@ -222,9 +498,4 @@ func writeJSON(path string, v interface{}) error {
 	}
 	os.MkdirAll(filepath.Dir(path), 0o755)
 	return os.WriteFile(path, append(data, '\n'), 0o644)
-}
-
-func cmdReplay(args []string) int {
-	fmt.Fprintln(os.Stderr, "replay: not implemented yet")
-	return 2
 }
